@@ -335,6 +335,10 @@ __strfdt_card(
 {
 	size_t res = 0;
 
+	if (UNLIKELY(bsz < 4U)) {
+		/* no room for the widest thing we put directly */
+		return 0U;
+	}
 	switch (s.spfl) {
 	default:
 	case DT_SPFL_UNK:
@@ -367,7 +371,7 @@ __strfdt_card(
 	case DT_SPFL_N_EPOCHNS: {
 		/* convert to sexy */
 		int64_t sexy = dt_conv_to_sexy(that).sexy;
-		res = snprintf(buf, bsz, "%" PRIi64, sexy);
+		res = sntrunc(snprintf(buf, bsz, "%" PRIi64, sexy), bsz);
 		break;
 	}
 
@@ -379,9 +383,9 @@ __strfdt_card(
 			z = -z;
 			sign = '-';
 		}
-		res = snprintf(
+		res = sntrunc(snprintf(
 			buf, bsz, "%c%02u:%02u",
-			sign, (uint32_t)z / 3600U, ((uint32_t)z / 60U) % 60U);
+			sign, (uint32_t)z / 3600U, ((uint32_t)z / 60U) % 60U), bsz);
 		break;
 	}
 
@@ -406,6 +410,10 @@ __strfdt_dur(
 	char *buf, size_t bsz, struct dt_spec_s s,
 	struct strpdt_s *d, struct dt_dtdur_s that)
 {
+	if (UNLIKELY(bsz < 4U)) {
+		/* no room for the widest thing we put directly */
+		return 0U;
+	}
 	switch (s.spfl) {
 	default:
 	case DT_SPFL_UNK:
@@ -446,11 +454,11 @@ __strfdt_dur(
 			/*@fallthrough@*/
 		case DT_DURS:
 			if (LIKELY(!that.tai)) {
-				return (size_t)snprintf(
-					buf, bsz, "%" PRIi64 "s", dv);
+				return sntrunc(snprintf(
+					buf, bsz, "%" PRIi64 "s", dv), bsz);
 			} else {
-				return (size_t)snprintf(
-					buf, bsz, "%" PRIi64 "rs", dv);
+				return sntrunc(snprintf(
+					buf, bsz, "%" PRIi64 "rs", dv), bsz);
 			}
 			break;
 		}
@@ -465,11 +473,11 @@ __strfdt_dur(
 			/*@fallthrough@*/
 		case DT_DURNANO:
 			if (LIKELY(!that.tai)) {
-				return (size_t)snprintf(
-					buf, bsz, "%" PRIi64 "ns", dur);
+				return sntrunc(snprintf(
+					buf, bsz, "%" PRIi64 "ns", dur), bsz);
 			} else {
-				return (size_t)snprintf(
-					buf, bsz, "%" PRIi64 "rns", dur);
+				return sntrunc(snprintf(
+					buf, bsz, "%" PRIi64 "rns", dur), bsz);
 			}
 		default:
 			break;
@@ -505,13 +513,13 @@ __strfdt_xdn(char *buf, size_t bsz, struct dt_dt_s that)
 	case DT_LDN:
 		dn = (double)that.d.ldn;
 		if (dt_sandwich_only_d_p(that)) {
-			return snprintf(buf, bsz, "%.0f", dn);
+			return sntrunc(snprintf(buf, bsz, "%.0f", dn), bsz);
 		}
 		break;
 	case DT_MDN:
 		dn = (double)that.d.mdn;
 		if (dt_sandwich_only_d_p(that)) {
-			return snprintf(buf, bsz, "%.0f", dn);
+			return sntrunc(snprintf(buf, bsz, "%.0f", dn), bsz);
 		}
 		break;
 	default:
@@ -522,7 +530,7 @@ __strfdt_xdn(char *buf, size_t bsz, struct dt_dt_s that)
 		unsigned int ss = __secs_since_midnight(that.t);
 		dn += (double)ss / (double)SECS_PER_DAY;
 	}
-	return snprintf(buf, bsz, "%.6f", dn);
+	return sntrunc(snprintf(buf, bsz, "%.6f", dn), bsz);
 }
 
 #endif	/* INCLUDED_dt_core_strpf_c_ */
